@@ -158,6 +158,11 @@ def native_call(I, f, args, kw):
         except Exception as e:
             I.raise_py(type(e), *e.args)
     name = getattr(f, '__qualname__', getattr(f, '__name__', repr(f)))
+    if name == '_declarative_constructor' and mod.startswith('sqlalchemy') and not kw and len(args) == 1:
+        # sqlalchemy's default mapped-class __init__(self, **kwargs) sets the given keyword
+        # attributes: without keywords it does nothing (assumed from its documentation)
+        I.path.session.assumptions.add("sqlalchemy declarative __init__() without keywords has no effect")
+        return None
     if not I.path.session.__dict__.get('allow_external', False):
         raise OutOfFragment("call of external %s.%s" % (mod, name))
     return opaque_external(I, "%s.%s" % (mod, name), args, kw)
@@ -885,6 +890,94 @@ def _link_specrt():
         if _f is not None and id(_f) not in M._MODELS:
             M._MODELS[id(_f)] = M._MODELS[id(_marker)]
             M._MODEL_KEEP.append(_f)
+
+
+_link_specrt()
+
+
+@spec_builtin('list_replace')
+def sb_list_replace(I, args, kw):
+    """list_replace(lst, i, v): copy of lst with element i replaced by v (0 <= i < len)."""
+    lst, i, v = args
+    lst = list(I.iterate_concrete(lst))
+    if isinstance(i, SInt):
+        for k in range(len(lst)):
+            if I.path.branch(i.t == k):
+                return lst[:k] + [v] + lst[k + 1:]
+        raise _pyvc().Infeasible()
+    return lst[:i] + [v] + lst[i + 1:]
+
+
+@spec_builtin('list_remove_at')
+def sb_list_remove_at(I, args, kw):
+    lst, i = args
+    lst = list(I.iterate_concrete(lst))
+    if isinstance(i, SInt):
+        for k in range(len(lst)):
+            if I.path.branch(i.t == k):
+                return lst[:k] + lst[k + 1:]
+        raise _pyvc().Infeasible()
+    return lst[:i] + lst[i + 1:]
+
+
+@spec_builtin('same_items')
+def sb_same_items(I, args, kw):
+    """same_items(a, b): lists of equal length whose elements are pairwise identical objects or
+    equal values."""
+    a, b = list(I.iterate_concrete(args[0])), list(I.iterate_concrete(args[1]))
+    if len(a) != len(b):
+        return False
+    ts = []
+    for x, y in zip(a, b):
+        if x is y:
+            continue
+        if isinstance(x, Obj) or isinstance(y, Obj):
+            return False
+        t = I.truth(M.equals(I, x, y))
+        if t is False:
+            return False
+        if t is not True:
+            ts.append(t)
+    if not ts:
+        return True
+    return lower_bool(z3.And(*ts) if len(ts) > 1 else ts[0])
+
+
+_link_specrt()
+
+
+@spec_builtin('removed_first')
+def sb_removed_first(I, args, kw):
+    """removed_first(new, old, pred): `new` is `old` without its first element satisfying pred
+    (and such an element exists).  Lists with a concrete spine."""
+    new, old, pred = args
+    new, old = list(I.iterate_concrete(new)), list(I.iterate_concrete(old))
+    if len(new) != len(old) - 1:
+        return False
+    hits = [I.truth(I.call_value(pred, [x], {})) for x in old]
+    alts = []
+    for k in range(len(old)):
+        same = sb_same_items(I, [new, old[:k] + old[k + 1:]], {})
+        parts = [hits[k]] + [_neg(h) for h in hits[:k]] + [I.truth(same)]
+        if any(p is False for p in parts):
+            continue
+        parts = [p for p in parts if p is not True]
+        if not parts:
+            return True
+        alts.append(z3.And(*[_term(p) for p in parts]) if len(parts) > 1 else _term(parts[0]))
+    if not alts:
+        return False
+    return lower_bool(z3.Or(*alts) if len(alts) > 1 else alts[0])
+
+
+def _neg(t):
+    if isinstance(t, bool):
+        return not t
+    return z3.Not(_term(t))
+
+
+def _term(t):
+    return t.t if isinstance(t, SBool) else t
 
 
 _link_specrt()
